@@ -9,7 +9,7 @@
    compression codecs, schemas) is NOT modelled; it is tied by the correspondence test only.
    Only statements here; proofs are `exact <lemma>`. *)
 From Coq Require Import List Arith Bool NArith.
-From RxVerif Require Import Container.Parquet Container.ParquetProofs.
+From RxVerif Require Import Container.Parquet Container.ParquetProofs Container.ParquetCols Container.ParquetColsProofs.
 Import ListNotations.
 
 Theorem C20_batches_concat : forall (R : Type) (n : nat) (rows : list R), concat (batches R n rows) = rows.
@@ -60,6 +60,66 @@ Theorem C20_shared_buffers_refuted : exists (n : nat) (rows : list N),
 Proof. exact shared_buffers_refuted. Qed.
 Print Assumptions C20_shared_buffers_refuted.
 
+
+(* ---------------- the column layer: create_record / row reconstruction ---------------- *)
+(* create_record = transposition of the rows projected on the schema names; it raises (None) exactly when some
+   row lacks a schema name *)
+Theorem C20_cols_create_record_is_transposition : forall (K V : Type) (keq : K -> K -> bool) (names : list K) (data : list (row K V)),
+  create_cols K V keq names data = option_map (transpose V (length names)) (project_all K V keq names data).
+Proof. exact create_cols_spec. Qed.
+Print Assumptions C20_cols_create_record_is_transposition.
+
+Theorem C20_cols_create_record_raises_on_missing_field : forall (K V : Type) (keq : K -> K -> bool) names data,
+  project_all K V keq names data = None -> create_cols K V keq names data = None.
+Proof. exact create_cols_missing_field. Qed.
+Print Assumptions C20_cols_create_record_raises_on_missing_field.
+
+(* one record batch: one column per schema name, one entry per row, and zip over the columns gives the rows back *)
+Theorem C20_cols_record_batch_round_trip : forall (K V : Type) (keq : K -> K -> bool) names data rvs,
+  names <> [] -> project_all K V keq names data = Some rvs ->
+  exists cols, create_cols K V keq names data = Some cols /\
+               length cols = length names /\
+               Forall (fun c => length c = length data) cols /\
+               rows_of_cols K V names cols = map (combine names) rvs.
+Proof. exact cols_round_trip. Qed.
+Print Assumptions C20_cols_record_batch_round_trip.
+
+(* the rebuilt row has exactly the schema names as keys, in schema order, each with the source row's value *)
+Theorem C20_cols_rebuilt_row_fields : forall (K V : Type) (keq : K -> K -> bool),
+  (forall a b, keq a b = true <-> a = b) -> forall names r rv, NoDup names -> project K V keq names r = Some rv ->
+  map fst (combine names rv) = names /\
+  forall n, In n names -> lookup K V keq (combine names rv) n = lookup K V keq r n.
+Proof. exact rebuilt_row_fields. Qed.
+Print Assumptions C20_cols_rebuilt_row_fields.
+
+(* key order and extra keys of a pushed dict are irrelevant: only its values under the schema names are read *)
+Theorem C20_cols_key_order_and_extra_keys_irrelevant : forall (K V : Type) (keq : K -> K -> bool) names r r',
+  (forall n, In n names -> lookup K V keq r n = lookup K V keq r' n) -> project K V keq names r = project K V keq names r'.
+Proof. exact project_ext. Qed.
+Print Assumptions C20_cols_key_order_and_extra_keys_irrelevant.
+
+(* whole path at the column layer: batches of any size n, each transposed, all rebuilt at load = every source row
+   rebuilt, once, in order *)
+Theorem C20_cols_end_to_end_partial : forall (K V : Type) (keq : K -> K -> bool) names n data,
+  names <> [] -> Forall (row_ok K V keq names) data ->
+  exists rbs, Forall2 (fun b rb => create_cols K V keq names b = Some rb) (batches (row K V) n data) rbs /\
+              concat (map (rows_of_cols K V names) rbs) = map (rebuild K V keq names) data.
+Proof. exact cols_end_to_end. Qed.
+Print Assumptions C20_cols_end_to_end_partial.
+
+(* and a row pushed with exactly the schema names as keys in schema order comes back identical *)
+Theorem C20_cols_schema_ordered_row_unchanged : forall (K V : Type) (keq : K -> K -> bool),
+  (forall a b, keq a b = true <-> a = b) -> forall names (r : row K V), NoDup names -> map fst r = names ->
+  rebuild K V keq names r = r /\ row_ok K V keq names r.
+Proof. exact rebuild_id. Qed.
+Print Assumptions C20_cols_schema_ordered_row_unchanged.
+
+(* outside the quantifier of C20 (schemas have columns): with no column, zip() yields no row *)
+Theorem C20_cols_empty_schema_loses_rows_in_model : exists data : list (row N N),
+  data <> [] /\ option_map (rows_of_cols N N []) (create_cols N N N.eqb [] data) = Some [].
+Proof. exact empty_schema_loses_rows. Qed.
+Print Assumptions C20_cols_empty_schema_loses_rows_in_model.
+
 (* non-vacuity *)
 Example C20_batch_example :
   batch_timed N 2 [0; 1; 2; 3; 4]%N = [[]; [[0; 1]%N]; []; [[2; 3]%N]; []; [[4%N]]].
@@ -69,4 +129,13 @@ Proof. vm_compute. reflexivity. Qed.
 Example C20_shared_example : to_record_shared N [] (batches N 2 [0; 1; 2; 3]%N) = [[0; 1]; [0; 1; 2; 3]]%N.
 Proof. vm_compute. reflexivity. Qed.
 Example C20_row_groups_example : row_groups N (Some 2) (dump N 5 (idx_rows 7)) = [2; 2; 1; 2].
+Proof. vm_compute. reflexivity. Qed.
+Example C20_cols_example :
+  option_map (rows_of_cols N N [1; 2]%N) (create_cols N N N.eqb [1; 2] [[(2, 20); (9, 0); (1, 10)]; [(1, 11); (2, 21)]])%N
+  = Some [[(1, 10); (2, 20)]; [(1, 11); (2, 21)]]%N.
+Proof. vm_compute. reflexivity. Qed.
+Example C20_cols_columns_example :
+  create_cols N N N.eqb [1; 2]%N [[(2, 20); (1, 10)]; [(1, 11); (2, 21)]]%N = Some [[10; 11]; [20; 21]]%N.
+Proof. vm_compute. reflexivity. Qed.
+Example C20_cols_missing_example : create_cols N N N.eqb [1; 2]%N [[(1, 10); (2, 20)]; [(1, 11)]]%N = None.
 Proof. vm_compute. reflexivity. Qed.
